@@ -25,6 +25,8 @@ CHECKS = {
             "history checker against reference unrolling + sys.monitoring step budget"),
     "C10": ("pass sequences (<=4, with repetition) over expand_subcircuits / fill_in_let(ov) / expand_macros / fill_in_map compared by full reference meaning; idempotence by ==, text and meaning; parser expand_* flags vs pass composition; generated text of every intermediate result re-parsed",
             "reference-model oracle over generated call sequences"),
+    "C11": ("identity-aware deep fingerprints of the shared circuit object before and after every call (icontract snapshot/ensure on the nine real functions, plus the exception path) over random call histories with chained calls; every result compared with the same call on a freshly parsed copy; thorough: the repository's own tests run with the contracts on",
+            "icontract contracts (input fingerprint unchanged) on the real functions + history/fresh-copy comparison"),
     "C12": ("bounded-exhaustive bracket sequences of prepare/measure/gate leaves under loop/block/macro/subcircuit containers judged against a flat-order scan transcribed from the property statement; accepted programs have subcircuit count and states compared",
             "reference acceptance oracle over an enumerated space + state comparison"),
     "C13": ("used-qubit sets of circuits and statements compared with reference reachability; emulator acceptance compared with a reference overlap scan; branch permutations; event log of every merge_into decision",
@@ -35,6 +37,14 @@ CHECKS = {
             "invariant monitor over returned result objects"),
     "C16": ("random strings, truncations, token mutants and semantic-garbage templates through parse_to_sexpression / parse_jaqal_string (random flags) / run_jaqal_circuit under a logical step budget; outcome must be a result, JaqalError (JaqalParseError with a valid position) or a justified ImportError; call histories in fresh interpreter processes compared per text, plus a process-global state fingerprint after every call",
             "exception-type / position monitor + sys.monitoring step budget + history comparison across fresh processes + global-state fingerprint"),
+    "C17": ("each generated program built four ways (Jaqal text, S-expression build, CircuitBuilder objects, Q-syntax) and compared pairwise by ==, generated text and reference meaning; implicit prepare/measure wrapping rule; auto-generated names read back and checked for freshness against user names of both kinds",
+            "differential comparison of four front ends + reference-model oracle"),
+    "C18": ("exhaustive signatures (length 0-3 over 5 kinds) x argument value classes x arities n-1/n/n+1, positional vs keyword, against the kind table of the statement; idle and stretched variants of every native gate: signature, used qubits, emulated effect, unitary for sampled stretch factors",
+            "exhaustive table-driven oracle over the real GateDefinition/Parameter code + emulator effect monitor"),
+    "C19": ("reference lock-step scheduler applied to input and (required flat) output IR of normalize_blocks_with_unitary_timing with uniquely tagged gates; loops under parallel blocks must be rejected; header data and subcircuit annotations compared",
+            "reference-model oracle (scheduler) with unambiguous gate identities"),
+    "C20": ("reflexivity, symmetry, equality with the re-parse of generated text and of layout variants; every single-point mutant whose model declarations or meaning differ must compare unequal in both directions; outcome counters on every __eq__ of the IR classes",
+            "mutation-based oracle on the real __eq__ methods + reach counters"),
     "C09": ("expand_subcircuits output compared with reference expansion; execution and output-list parsing compared between the subcircuit spelling and the prepare/measure spelling under the same numpy seed",
             "reference-model oracle + metamorphic execution pairs under a logical step budget"),
 }
